@@ -2,7 +2,7 @@
 """Regenerates MANIFEST.json from the table below (run from /verif)."""
 import json, os
 
-T = "Trusts the instrumenter's rewrite rules, Go 1.26.8 synctest, the simulated transport (reliable stream, non-blocking writes) and the harness' own RFC-derived codec and predicates."
+T = "Trusts the instrumenter's rewrite rules, Go 1.26.8 synctest, the simulated transport (reliable stream; writes block only under the back-pressure fault C04 injects) and the harness' own RFC-derived codec and predicates."
 CLAIMED = {
  "C05": ("deterministic simulation: hostile byte streams at every FSM state on a victim peer next to a well-behaved bystander, all exported decoders in the handler, concurrent API fuzz; panic capture, bystander/liveness/shutdown oracles",
          "Seeded exploration of hostile payloads (random bytes, typed random bodies, grammar-mutated OPENs and UPDATEs incl. extended-length/MP/add-path attributes with lying lengths, truncations, maximum-length messages, NOTIFICATION variants) x phase x direction x segmentation x schedule, with 1-3 API client tasks: any panic inside corebgp is captured with its frame; the bystander session must stay up with its keepalive cadence, every API call must return, a fresh peer must establish within idle-hold+connect-retry+1 s and Close must return leaving no goroutine that cannot terminate. Decoder inputs longer than one BGP message cannot arrive over a connection and are not reached.", T, "DESIGN.md 4 C05"),
@@ -10,17 +10,17 @@ CLAIMED = {
          "Seeded exploration of the point at which shutdown lands relative to ~10 goroutines per peer: uniformly over virtual time plus a step offset, or a few steps after an interesting event (dial accepted but not handed over, OPEN just written, KEEPALIVE just written, OnEstablished executing, two live connections). At return: latency <= 1 s virtual, every handed-over connection closed, Cease last on every connection that had sent its OPEN and been quiescent since, callbacks closed and silent, no corebgp goroutine left once runnable ones have finished; Serve's result and repeated Close/Serve are checked. The data-race clause re-runs a concurrent workload with the race detector (not exactly replayable; see level_note).", T + " The race clause depends on the race detector's happens-before analysis of the executed paths; its schedule is not tape-controlled.", "DESIGN.md 4 C10"),
  "C11": ("deterministic simulation in virtual time: fault-sequence prefixes (refuse, stall, FIN/RST/Cease at each state, inbound sessions) then a well-behaved remote; transport dial timestamps vs idle-hold/connect-retry",
          "Seeded exploration of fault sequences x (idle-hold, connect-retry) settings x active/passive: once faults stop the session must be Established within idle-hold + connect-retry + 1 s; consecutive refused attempts started from Idle are spaced by at least one idle-hold time and at most max(idle-hold, refusal time)+1 s; a stalled connect is abandoned exactly at connect-retry and followed by a new attempt; after an inbound session of an active peer ends dialling resumes within 1 s and a new inbound connection is admitted; a passive peer never dials; the WithDialerControl callback fires once per attempt.", T, "DESIGN.md 4 C11"),
- "C12": ("deterministic simulation in virtual time: protocol-error / non-damping event histories with drawn gaps, executable hold-down model (60 s, doubling, 300 s cap, 300 s amnesia) vs dial records and inbound refusals",
+ "C12": ("deterministic simulation in virtual time: protocol-error / non-damping event histories with drawn gaps (incl. errors coinciding with collision resolution or with the other connection becoming Established, and a slow user Logger that keeps the peer manager busy), executable hold-down model (60 s, doubling, 300 s cap, 300 s amnesia) vs dial records and inbound refusals",
          "Seeded exploration of histories of 1-8 events (every way to receive or provoke a non-Cease NOTIFICATION from every state and direction, interleaved with Cease/FIN/RST) separated by 0-700 s: the model predicts each hold-down window; no dial may occur inside it, inbound connections offered inside it (also 5 ms before its end) must be closed with zero bytes, a dial (active) or admission (passive) must follow within 1 s of its end, non-damping events must leave the model state untouched, and a well-behaved remote must finally establish. All delay values 60/120/240/300 s and the amnesia reset are reached.", T, "DESIGN.md 4 C12"),
  "C13": ("deterministic simulation: peer sets x phases x (source, destination, listener) probes at quiescent points, admission predicate vs bytes/EOF on the dialling side",
          "Seeded exploration of 1-4 peers (IPv4/IPv6, with/without local address, active/passive), the target peer in one of ten phases (idle, dial pending, outbound OpenSent/OpenConfirm, inbound in progress, Established either way, held down, just deleted) and inbound connections from configured, other-peer, unconfigured, IPv6 and v4-mapped sources to every local address through specific and wildcard listeners: admitted connections must receive an OPEN, all others must be closed with zero bytes written, no plugin callback and no effect on any existing connection.", T, "DESIGN.md 4 C13"),
  "C20": ("deterministic simulation: concurrent registry histories stamped with event sequence numbers and checked with porcupine against a sequential map model; validation grid; start/stop behaviour observed on the simulated network",
          "Seeded exploration of 2-4 concurrent client tasks x 3-10 operations over 3 keys with Serve/Close at drawn points under an adversarial schedule (the mutex hand-off order is the scheduler's choice): histories must be linearizable (porcupine; Unknown is counted, never reported), every invalid configuration of the grid must be rejected, dials are attributed to peers through their own dialer-control closure (target, source address, never before Serve, never after Close, never for passive peers), and a sequential phase checks start-on-add and stop-on-delete. NewServer's router-id check rides along.", T, "DESIGN.md 4 C20"),
- "C01": ("deterministic simulation: multi-peer chaos workload (collisions, per-connection deviations, churn, stalls), incremental callback automaton with task attribution",
+ "C01": ("deterministic simulation: multi-peer chaos workload (collisions, per-connection deviations, churn, stalls, slow user Logger, free-running WriteUpdate callers), incremental callback automaton with task attribution",
          "Seeded exploration of interleavings of remote connects, dials, OPEN/KEEPALIVE/UPDATE/NOTIFICATION arrivals, FIN/RST, timer expiries, stall faults and AddPeer/DeletePeer/Close over the real peer manager, FSMs, readers and keepalive managers; after every event a per-plugin automaton (Down/InEstablished/Up/InHandler/InClose) with task and connection attribution, GetCapabilities-per-OPEN accounting and OnOpenMessage-per-connection accounting is checked, and at DeletePeer/Close return every OnEstablished must have its OnClose.", T, "DESIGN.md 4 C01"),
  "C03": ("deterministic simulation: tagged UPDATE/KEEPALIVE sequences cut into adversarial TCP segments, delivered-vs-sent sequence oracle, handler variants",
          "Seeded exploration of message sequences x segmentations x reader/FSM/handler schedules (incl. handler stalls in virtual time, WriteUpdate inside the handler, handler-returned NOTIFICATION): delivered bodies must equal the sent sequence (exact while the session lives), lie inside the OnEstablished..OnClose window, never be modified afterwards or alias each other; a handler NOTIFICATION must appear verbatim and end the session.", T, "DESIGN.md 4 C03"),
- "C04": ("deterministic simulation: concurrent writer tasks vs keepalive timers vs teardown/re-establishment, strict frame parser and per-connection multiset/order accounting of WriteUpdate calls",
+ "C04": ("deterministic simulation: concurrent writer tasks vs keepalive timers vs teardown/re-establishment vs transport back-pressure (the remote stops reading), strict frame parser and per-connection multiset/order accounting of WriteUpdate calls",
          "Seeded exploration of writer interleavings (0-4 writer tasks per session, calls inside OnEstablished and the handler, stale handles after FIN/RST/hold expiry/handler NOTIFICATION/Close, re-established sessions) with a schedule point before every transport write: every outbound stream must parse as whole well-formed messages, every nil-returning WriteUpdate appears exactly once on its own session's connection in per-writer order, no UPDATE appears from nowhere or on another connection, calls after OnClose began fail, no call blocks in virtual time.", T, "DESIGN.md 4 C04"),
  "C06": ("deterministic simulation in virtual time: hold-time grid x remote traffic patterns x local write patterns, wire timestamps vs min(local, remote)",
          "Seeded exploration over the hold-time grid (0, 3..65535 s - an 18-hour hold time costs microseconds) x stage (OpenConfirm/Established) x remote cadence (H/3, H-eps, H+eps, random, last message just before expiry) x local WriteUpdate pattern with zero-time CPU: the OPEN carries the configured hold time, Hold Timer Expired is never sent earlier than H after the last received message and is sent within H+1 s of silence, gaps between sent KEEPALIVE/UPDATE never exceed H/3+1 s, and with H=0 a 24 h silence changes nothing and UPDATEs still flow.", T, "DESIGN.md 4 C06"),
@@ -35,7 +35,7 @@ CLAIMED = {
  # id: (technique, level text, level note, design ref)
  "C09": ("deterministic simulation: full (state x message x direction) reaction table against the instrumented FSM, quiescent-point wire oracle",
          "Seeded exploration: every cell of {OpenSent,OpenConfirm,Established} x {OPEN,UPDATE,NOTIFICATION,KEEPALIVE,FIN,RST} x {in,out} is driven end-to-end through the real FSM under a tape-controlled goroutine schedule and TCP segmentation; the reaction observed on the wire and in the plugin log at the next quiescent point is compared with the RFC 4271 8.2.2 / RFC 6608 table. All 36 cells are hit thousands of times per quick run; NOTIFICATION contents and schedules are sampled, so this is evidence, not proof.",
-         "Trusts the instrumenter's rewrite rules, Go 1.26.8 synctest, the simulated transport (reliable stream, non-blocking writes) and the harness' own RFC-derived codec.", "DESIGN.md 4 C09"),
+         "Trusts the instrumenter's rewrite rules, Go 1.26.8 synctest, the simulated transport (reliable stream; writes block only under the back-pressure fault C04 injects) and the harness' own RFC-derived codec.", "DESIGN.md 4 C09"),
 }
 
 PENDING = "check not built yet in this session (planned: deterministic simulation, see DESIGN.md section 4)"
